@@ -106,7 +106,8 @@ AddSent ==
   /\ "sent" \in PKinds
   \* c: 0 one line; 1 continued; 2/3 with a comment / blank line between; 4/5 the continuation line starts directly after the
   \* sentinel with the statement text / with an ampersand
-  /\ \E pos \in Ch({i \in 1..N : IsHideable(i)}), c \in 0..5 :
+  \* 6: continued, with a trailing comment behind the & of the first line
+  /\ \E pos \in Ch({i \in 1..N : IsHideable(i)}), c \in 0..6 :
        /\ IsHideable(pos) /\ ~HasEd("sent", pos)
        /\ ~\E j \in 1..Len(ed) : ed[j].t = "cmt" /\ ed[j].pos = pos /\ ed[j].a \in {2, 3, 4, 5}
        /\ (c >= 1 => Splittable(pos))
@@ -209,7 +210,7 @@ Leaves(i) == IF i > N THEN [j \in 1..Len(EdsAt(N + 1, {1})) |-> <<"e", EdsAt(N +
                   \o [j \in 1..Len(EdsAt(i, {2, 3, 4, 5})) |-> <<"e", EdsAt(i, {2, 3, 4, 5})[j]>>] \o Leaves(i + 1)
 
 \* physical lines: every statement one line, plus one for a continuation break, plus inserted lines
-CppLines(f) == IF f \in {12, 13} THEN 2 ELSE 1          \* backslash-continued forms occupy two lines
+CppLines(f) == IF f \in {12, 13} THEN 2 ELSE IF f = 30 THEN 3 ELSE 1          \* backslash-continued forms occupy two / three lines
 LinesOf(j) == IF ed[j].t = "cmt" THEN 1 ELSE CppLines(ed[j].a) + (IF ed[j].b > 0 THEN CppLines(ed[j].b) ELSE 0)
 RECURSIVE SumLines(_, _)
 SumLines(i, j) == IF j = 0 THEN 0
